@@ -2,6 +2,7 @@ package an
 
 import (
 	"fmt"
+	"sort"
 	"go/token"
 	"strings"
 
@@ -349,24 +350,47 @@ func (a *Analysis) ruleLayouts() {
 				r.Bad("L2w", fk+"/size", pos, ctx.Name, "%d tokens get past the count gate", W)
 				continue
 			}
-			// ---- L2w: every byte string fed to the checksum hash has exactly ENT/8 bytes
+			// ---- L2w: what each checksum hash has been fed in total is exactly ENT/8 bytes
+			// (consecutive writes are considered together: zero padding followed by the minimal
+			// encoding is the fixed-width encoding)
 			nw := 0
+			var wpos string
 			for _, c := range e.Calls {
-				if c.Callee != "invoke:hash.Write" && c.Callee != "crypto/sha256.Sum256" {
-					continue
+				if c.Callee == "invoke:hash.Write" || c.Callee == "crypto/sha256.Sum256" {
+					wpos = a.P.InstrPos(c.Instr)
 				}
+			}
+			names := make([]string, 0, len(e.Digests))
+			for name := range e.Digests {
+				names = append(names, name)
+			}
+			sort.Strings(names)
+			for _, name := range names {
+				d := e.Digests[name]
 				nw++
-				b, _ := c.Args[0].(BytesV)
-				cp := a.P.InstrPos(c.Instr)
+				total := int64(0)
+				bad := ""
+				for _, b := range d.Writes {
+					switch {
+					case b.Min:
+						bad = fmt.Sprintf("the checksum is computed over big.Int.Bytes(), whose length depends on the value: leading zero bytes of the entropy are dropped, so the hash is not taken over exactly %d bytes", sz.L)
+					case !b.LenKnown || !b.Len.Const():
+						if bad == "" {
+							bad = fmt.Sprintf("cannot show that the checksum hash input (%v) has exactly %d bytes", b, sz.L)
+						}
+					default:
+						total += b.Len.A
+					}
+				}
 				switch {
-				case b.Min:
-					r.Bad("L2w", fk+"/hash-input", cp, ctx.Name, "the checksum is computed over big.Int.Bytes(), whose length depends on the value: leading zero bytes of the entropy are dropped, so the hash is not taken over exactly %d bytes", sz.L)
-				case !b.LenKnown || !b.Len.Const():
-					r.Unk("L2w", fk+"/hash-input", cp, ctx.Name, "cannot show that the checksum hash input (%v) has exactly %d bytes", b, sz.L)
-				case b.Len.A != sz.L:
-					r.Bad("L2w", fk+"/hash-input", cp, ctx.Name, "the checksum hash input has %d bytes, BIP39 requires %d for %d words", b.Len.A, sz.L, W)
+				case strings.HasPrefix(bad, "the checksum is computed over"):
+					r.Bad("L2w", fk+"/hash-input", wpos, ctx.Name, "%s", bad)
+				case bad != "":
+					r.Unk("L2w", fk+"/hash-input", wpos, ctx.Name, "%s", bad)
+				case total != sz.L:
+					r.Bad("L2w", fk+"/hash-input", wpos, ctx.Name, "the checksum hash input has %d bytes, BIP39 requires %d for %d words", total, sz.L, W)
 				default:
-					r.OK("L2w", fk+"/hash-input", cp, ctx.Name, "hash input has exactly %d bytes", sz.L)
+					r.OK("L2w", fk+"/hash-input", wpos, ctx.Name, "hash input has exactly %d bytes", sz.L)
 				}
 			}
 			if nw == 0 {
